@@ -14,6 +14,7 @@
 (* completed exactly once, after both child cleanups completed.            *)
 (***************************************************************************)
 EXTENDS Naturals, TLC
+CONSTANT Mut     \* "none" | "k3_ignore": cleanup start() ignores the result of cleanupReady_.exchange (spec-level mutation, must violate Finally)
 VARIABLES ready, cdone, cleanupOpSet, pcT, pcK, pcSC, pcTC, trigNextDone, srcClStarts, trigClStarts, srcClDone, trigClDone, finalDelivered
 vars == <<ready, cdone, cleanupOpSet, pcT, pcK, pcSC, pcTC, trigNextDone, srcClStarts, trigClStarts, srcClDone, trigClDone, finalDelivered>>
 Init == /\ ready = FALSE /\ cdone = FALSE /\ cleanupOpSet = FALSE
@@ -40,6 +41,7 @@ K2 == /\ pcK = "k2" /\ cleanupOpSet' = TRUE /\ pcK' = "k3"          \* cleanupOp
       /\ UNCHANGED <<ready, cdone, pcT, pcSC, pcTC, trigNextDone, srcClStarts, trigClStarts, srcClDone, trigClDone, finalDelivered>>
 K3 == /\ pcK = "k3"                                                 \* exchange(true)
       /\ IF ~ready THEN ready' = TRUE /\ pcK' = "done" /\ UNCHANGED trigClStarts
+         ELSE IF Mut = "k3_ignore" THEN ready' = ready /\ pcK' = "done" /\ UNCHANGED trigClStarts
          ELSE ready' = ready /\ pcK' = "done" /\ StartTrigK
       /\ UNCHANGED <<cdone, cleanupOpSet, pcT, pcSC, pcTC, trigNextDone, srcClStarts, srcClDone, trigClDone, finalDelivered>>
 \* ---- SC / TC: completion of the child cleanups
